@@ -443,3 +443,5 @@ func (w *azWorker) build() {
 		}
 	}
 }
+
+func (w *azWorker) ProviderForTier2() *env.Provider { return w.p }
